@@ -1035,22 +1035,47 @@ class Repo:
                 if r is not None and r[0] in ('func', 'bound'):
                     return [r[1]]
             return []
+        def pick(row, ex):
+            cell = row
+            for i in (ex or ()):
+                if isinstance(cell, (ast.Tuple, ast.List)) and isinstance(i, int) and i < len(cell.elts):
+                    cell = cell.elts[i]
+                else:
+                    return None
+            return cell
+
+        def rows_of(v, depth):
+            """Elements iterated by `for ... in v`: a literal table, a local bound to one, or the loop variable of an enclosing loop over a table of tables
+            (`for steps in groups: for step in steps:`)."""
+            if depth > 3:
+                return None
+            table = fi.expand(v) if isinstance(v, ast.Name) else v
+            if isinstance(table, (ast.Tuple, ast.List)):
+                return list(table.elts)
+            if isinstance(v, ast.Name):
+                rows = []
+                ds = fi.defs().get(v.id, [])
+                if not ds or not all(k_ in ('for', 'comp') and v_ is not None for k_, v_, _s, _e in ds):
+                    return None
+                for k_, v_, _s, ex_ in ds:
+                    outer = rows_of(v_, depth + 1)
+                    if outer is None:
+                        return None
+                    for row in outer:
+                        cell = pick(row, ex_)
+                        if not isinstance(cell, (ast.Tuple, ast.List)):
+                            return None
+                        rows.extend(cell.elts)
+                return rows
+            return None
         for k, v, st, ex in fi.defs().get(name, []):
             if k == 'assign' and v is not None and not ex:
                 out.extend(target_of(v))
             elif k in ('for', 'unpack', 'comp') and v is not None:
-                table = fi.expand(v) if isinstance(v, ast.Name) else v
-                if isinstance(table, (ast.Tuple, ast.List)):
-                    for row in table.elts:
-                        cell = row
-                        for i in (ex or ()):
-                            if isinstance(cell, (ast.Tuple, ast.List)) and isinstance(i, int) and i < len(cell.elts):
-                                cell = cell.elts[i]
-                            else:
-                                cell = None
-                                break
-                        if cell is not None:
-                            out.extend(target_of(cell))
+                for row in rows_of(v, 0) or ():
+                    cell = pick(row, ex)
+                    if cell is not None:
+                        out.extend(target_of(cell))
         seen, uniq = set(), []
         for m in out:
             if id(m.node) not in seen:
